@@ -51,7 +51,7 @@ func init() {
 		ext := t.F[1].(*Term)
 		wall := t.F[0].(*Term)
 		if wall.Const && wall.U&hasMonotonic == 0 {
-			return nil, false // fall through impossible here; handled below
+			return notHandled{}, false // a wall-clock time (time.Unix): execute the real method
 		}
 		return e.C.App("unixnano!", BV(64), ext), false
 	})
@@ -517,7 +517,7 @@ func (e *Exec) msgDataTo(msg *StructV, dst Value) Value {
 		}
 		for j := 0; j < ss.NumFields(); j++ {
 			if protoFieldNum(ss.Tag(j)) == dn {
-				if types.Identical(ds.Field(i).Type(), ss.Field(j).Type()) {
+				if types.Identical(ds.Field(i).Type(), ss.Field(j).Type()) || wireCompatible(ds.Field(i).Type(), ss.Field(j).Type()) {
 					out.F[i] = e.normalise(e.snapshot(src.F[j], 0), ds.Field(i).Type())
 				} else {
 					e.unsupported(fmt.Sprintf("DataTo: field %s of %s decoded as different type in %s", ss.Field(j).Name(), st, dt))
@@ -582,4 +582,11 @@ func (e *Exec) normalise(v Value, t types.Type) Value {
 		return x
 	}
 	return v
+}
+
+// wireCompatible: two Go types that decode from the same protobuf wire value (enums of different packages, same-width ints).
+func wireCompatible(a, b types.Type) bool {
+	ab, ok1 := a.Underlying().(*types.Basic)
+	bb, ok2 := b.Underlying().(*types.Basic)
+	return ok1 && ok2 && ab.Kind() == bb.Kind()
 }
